@@ -248,6 +248,7 @@ static bool run_transition(const Cli& cli, const History& hist, const Op& o, int
     env::viols().clear();
     const bool want_canon = o.k == O_RS;
     auto pre = e->snapshot(want_canon);
+    e->keep_iterators();
     {
         const std::string tag = e->compute_tag(o);
         std::snprintf(g_prog->tag, sizeof g_prog->tag, "%s", tag.c_str());
@@ -393,6 +394,7 @@ static int replay_main(const Cli& cli)
     {
         env::viols().clear();
         auto pre = e.snapshot(h[i].k == O_RS);
+        e.keep_iterators();
         bool ok = e.apply(h[i]);
         e.transition_monitors(pre, h[i]);
         e.inspect();
